@@ -528,7 +528,15 @@ def _load(paths, spec):
     return m
 
 
-def _build(Alignment, scenario, S, E, extra):
+def _previous_pair(S2, E2):
+    """the pair an Alignment held BEFORE the one under check: another place and other bond lengths (20 % / 10 % longer)"""
+    for M, f, shift in ((S2, 1.2, np.array([0.25, -0.5, 0.125])), (E2, 1.1, np.array([-1.0, 0.5, 0.75]))):
+        P = np.array(M.atoms_positions, dtype=float)
+        c = P.mean(axis=0)
+        M.atoms_positions = c + (P - c) * f + shift
+
+
+def _build(Alignment, scenario, S, E, extra, case=None):
     if scenario == "ctor":
         return Alignment(start=S, end=E)
     if scenario == "setters":
@@ -539,6 +547,13 @@ def _build(Alignment, scenario, S, E, extra):
     if scenario == "reset":
         S2, E2 = extra
         ali = Alignment(start=S2, end=E2)
+        if case is not None:
+            # the object has already been USED for the previous pair (a short alignment) before it is given the pair under check:
+            # nothing computed for the previous pair (bond tables, restraints) may survive the re-assignment
+            try:
+                _align(ali, dict(case, steps_factor=min(int(case["steps_factor"]), 2), restrictions=None, auto_guess=False), case["seed"] + 77)
+            except Exception:       # the use for the previous pair is set-up, not the call under check
+                pass
         ali.start = S
         ali.end = E
         return ali
@@ -601,15 +616,14 @@ def run_case(case, paths=None, other_seed_repeat=False):
         extra, extra_before = None, None
         if case["scenario"] == "reset":
             S2, E2 = _load(paths["start"], case["start"]), _load(paths["end"], case["end"])
-            S2.atoms_positions = S2.atoms_positions + np.array([0.25, -0.5, 0.125])
-            E2.atoms_positions = E2.atoms_positions + np.array([-1.0, 0.5, 0.75])
+            _previous_pair(S2, E2)
             extra = (S2, E2)
             extra_before = [_snap(S2), _snap(E2)]
         obs = {"exc": None, "S0": np.array(case["start"]["xyz"], dtype=float), "E0": np.array(case["end"]["xyz"], dtype=float)}
         ali = None
         stats = []
         try:
-            ali = _build(Alignment, case["scenario"], S, E, extra)
+            ali = _build(Alignment, case["scenario"], S, E, extra, case)
             _align(ali, case, case["seed"], stats)
         except Harness:
             raise
@@ -629,11 +643,10 @@ def run_case(case, paths=None, other_seed_repeat=False):
             extra3 = None
             if case["scenario"] == "reset":
                 S4, E4 = _load(paths["start"], case["start"]), _load(paths["end"], case["end"])
-                S4.atoms_positions = S4.atoms_positions + np.array([0.25, -0.5, 0.125])
-                E4.atoms_positions = E4.atoms_positions + np.array([-1.0, 0.5, 0.75])
+                _previous_pair(S4, E4)
                 extra3 = (S4, E4)
             try:
-                ali2 = _build(Alignment, case["scenario"], S3, E3, extra3)      # same inputs, handed over the same way
+                ali2 = _build(Alignment, case["scenario"], S3, E3, extra3, case)      # same inputs, handed over the same way
                 _align(ali2, case, case["seed"] + (1 if other_seed_repeat else 0))
                 obs["A2"], _ = _snap(ali2.start)
                 obs["B2"], _ = _snap(ali2.end)
